@@ -123,11 +123,11 @@ Proof.
     - destruct (ty c f1) as [t1|]; [|done]. eapply (bb_driver_rejected t1 _ _ (base_op_three _ Hsix)). by rewrite G1a, G1b. }
   rewrite Hbb. f_equal. apply map_eq. intros x. rewrite Hlk. unfold regrouped.
   destruct (decide (x = m)) as [->|Hxm].
-  - rewrite lookup_insert. f_equal. apply ninfo_eq; simpl; [done|done|set_solver].
+  - rewrite lookup_insert. f_equal. apply ninfo_eq; simpl; [done|done|clear; set_solver].
   - rewrite lookup_insert_ne by done. unfold c0. rewrite disconnect_in_lookup. destruct (decide (x = n)) as [->|Hxn].
-    + rewrite lookup_insert, Hn. simpl. f_equal. apply ninfo_eq; simpl; [done|done|]. rewrite decide_True by set_solver. set_solver.
+    + rewrite lookup_insert, Hn. simpl. f_equal. apply ninfo_eq; simpl; [done|done|]. rewrite decide_True by (clear; set_solver). clear. set_solver.
     + rewrite lookup_insert_ne by done. destruct (c !! x) as [j|]; simpl; [|done]. f_equal. apply ninfo_eq; simpl; [done|done|].
-      rewrite decide_False by set_solver. set_solver.
+      rewrite decide_False by (clear -Hxn; set_solver). clear. set_solver.
 Qed.
 
 (* ------------------------------------------------------------------ limit_fanout step *)
@@ -165,8 +165,8 @@ Proof.
   { apply connect_g_done in E2 as [Hchk _]; [|done|done].
     unfold connect_check in Hchk. apply andb_true_iff in Hchk as [Hchk _]. apply negb_true_iff in Hchk.
     assert (Hl1 : ∀ f, f ∈ [f0; f1] → f ≠ m → ty c1 f = ty c f ∧ fanin c1 f = fanin c f ∖ {[n]}).
-    { intros f Hf Hfm. unfold ty, fanin. rewrite (L1 f Hfm), decide_True by done. destruct (c !! f); simpl; [done|]. split; [done|set_solver]. }
-    cbn [existsb length] in *. destruct (Hl1 f0) as [T0 F0]; [set_solver|done|]. destruct (Hl1 f1) as [T1 F1]; [set_solver|done|].
+    { intros f Hf Hfm. unfold ty, fanin. rewrite (L1 f Hfm), decide_True by done. destruct (c !! f); simpl; [done|]. split; [done|clear; set_solver]. }
+    cbn [existsb length] in *. destruct (Hl1 f0) as [T0 F0]; [clear; set_solver|done|]. destruct (Hl1 f1) as [T1 F1]; [clear; set_solver|done|].
     rewrite T0, F0, T1, F1 in Hchk. exact Hchk. }
   rewrite Hloads.
   (* the source may drive the helper *)
@@ -191,13 +191,13 @@ Proof.
     apply elem_size_ge_1 in Hin. lia. }
   rewrite Hsrc. f_equal. apply map_eq. intros x. rewrite Hlk. unfold buffered.
   destruct (decide (x = m)) as [->|Hxm].
-  - rewrite lookup_insert. f_equal. apply ninfo_eq; simpl; [done|done|set_solver].
+  - rewrite lookup_insert. f_equal. apply ninfo_eq; simpl; [done|done|clear; set_solver].
   - rewrite lookup_insert_ne, lookup_reroute by done. unfold c0. rewrite disconnect_out_lookup.
     destruct (decide (x ∈ [f0; f1])) as [Hin|Hin].
     + rewrite bool_decide_eq_true_2 by (clear -Hin; set_solver). destruct (c !! x) as [j|]; simpl; [|done]. f_equal.
-      apply ninfo_eq; simpl; [done|done|set_solver].
+      apply ninfo_eq; simpl; [done|done|clear; set_solver].
     + rewrite bool_decide_eq_false_2 by (clear -Hin; set_solver). destruct (c !! x) as [j|]; simpl; [|done]. f_equal.
-      apply ninfo_eq; simpl; [done|done|set_solver].
+      apply ninfo_eq; simpl; [done|done|clear; set_solver].
 Qed.
 
 (* ------------------------------------------------------------------ whole runs *)
@@ -250,4 +250,85 @@ Proof.
   rewrite Hmin. destruct (k <? 2)%nat eqn:Hk; [done|]. apply Nat.ltb_ge in Hk.
   destruct (steps_api _ _ _ _ _ _) as [c'| | |] eqn:Hs; try done. simpl. intros [= <-].
   by rewrite (fanout_steps_api_sound _ HT _ _ _ _ _ Hcl Hk Hs).
+Qed.
+
+(* ------------------------------------------------------------------ add_blackbox of the generic flop *)
+Definition pinF (inst : string) (st : circuit * list string * outcome) (pt : string * gtype) : circuit * list string * outcome :=
+  match st with
+  | (g, io, Done) => let '(g', o, nm) := add_g g (pin inst pt.1) pt.2 [] [] af_default in
+                     (g', match o with Done => nm :: io | _ => io end, o)
+  | _ => st end.
+Lemma pinF_fail inst pts g io e : foldl (pinF inst) (g, io, Fail e) pts = (g, io, Fail e).
+Proof. induction pts as [|pt pts IH]; simpl; [done|apply IH]. Qed.
+Lemma pinF_done inst pts : ∀ g io g' io', foldl (pinF inst) (g, io, Done) pts = (g', io', Done) →
+  g' = foldl (λ g pt, <[pin inst pt.1 := mk_node pt.2 false ∅]> g) g pts ∧ ∀ pt, pt ∈ pts → pin inst pt.1 ∉ dom g.
+Proof.
+  induction pts as [|[p t] pts IH]; intros g io g' io'; simpl.
+  - intros [= <- _]. split; [done|]. by intros pt ?%elem_of_nil.
+  - rewrite add_g_nil. destruct (bool_decide (pin inst p ∈ dom g)) eqn:Hd; [by rewrite pinF_fail|].
+    destruct (negb (bool_decide (t ∈ Gen_types.supported_types))); [by rewrite pinF_fail|].
+    destruct (bool_decide (pin inst p = "")); [by rewrite pinF_fail|].
+    destruct (starts_digit (pin inst p)); [by rewrite pinF_fail|].
+    apply bool_decide_eq_false in Hd.
+    assert (Hfi : fanin g (pin inst p) = ∅) by (unfold fanin; by rewrite (not_elem_of_dom_1 _ _ Hd)). rewrite Hfi.
+    intros H. apply IH in H as [-> Hfresh]. split; [done|].
+    intros pt [->|Hpt]%elem_of_cons; [done|]. specialize (Hfresh pt Hpt). rewrite dom_insert in Hfresh. set_solver.
+Qed.
+
+Definition connF (inst : string) (d : bbdef) (st : circuit * outcome) (kv : string * list string) : circuit * outcome :=
+  match st with
+  | (g, Done) => if bool_decide (kv.1 ∈ bb_in d) then connect_g g kv.2 [pin inst kv.1]
+                 else if bool_decide (kv.1 ∈ bb_out d) then connect_g g [pin inst kv.1] kv.2 else (g, Fail ValueError)
+  | _ => st end.
+Lemma connF_fail inst d g e l : foldl (connF inst d) (g, Fail e) l = (g, Fail e).
+Proof. induction l; simpl; done. Qed.
+Lemma connF_in inst d g p ns : p ∈ bb_in d → connF inst d (g, Done) (p, ns) = connect_g g ns [pin inst p].
+Proof. intros H. unfold connF. cbn [fst snd]. by rewrite bool_decide_eq_true_2. Qed.
+Lemma connF_out inst d g p ns : p ∉ bb_in d → p ∈ bb_out d → connF inst d (g, Done) (p, ns) = connect_g g [pin inst p] ns.
+Proof. intros H1 H2. unfold connF. cbn [fst snd]. by rewrite bool_decide_eq_false_2, bool_decide_eq_true_2. Qed.
+
+Lemma add_blackbox_ff_done C g2 n q inst C' :
+  add_blackbox (with_g C g2) ff_def inst ["clk";"d"] ["q"] [("d",[n]); ("q",[q]); ("clk",[clk_name])] = (C', Done) →
+  inst ∉ dom (c_bbs C) ∧ pin inst "clk" ∉ dom g2 ∧ pin inst "d" ∉ dom g2 ∧ pin inst "q" ∉ dom g2 ∧
+  let g3 := <[pin inst "q" := mk_node BbOut false ∅]> (<[pin inst "d" := mk_node BbIn false ∅]> (<[pin inst "clk" := mk_node BbIn false ∅]> g2)) in
+  ∃ g4 g5 g6, connect_g g3 [n] [pin inst "d"] = (g4, Done) ∧ connect_g g4 [pin inst "q"] [q] = (g5, Done) ∧
+    connect_g g5 [clk_name] [pin inst "clk"] = (g6, Done) ∧
+    C' = {| c_name := c_name C; c_g := g6; c_bbs := <[inst := ff_def]> (c_bbs C) |}.
+Proof.
+  unfold add_blackbox. cbn [c_bbs c_g with_g with_bbs]. destruct (bool_decide (inst ∈ dom (c_bbs C))) eqn:Hi; [done|].
+  apply bool_decide_eq_false in Hi.
+  change (foldl _ (g2, [], Done) _) with (foldl (pinF inst) (g2, [], Done) [("clk", BbIn); ("d", BbIn); ("q", BbOut)]).
+  destruct (foldl (pinF inst) _ _) as [[g io] o] eqn:Ep.
+  destruct o as [|e].
+  2:{ simpl. destruct e; done. }
+  apply pinF_done in Ep as [-> Hfresh].
+  set (g3 := foldl (λ g pt, <[pin inst pt.1 := mk_node pt.2 false ∅]> g) g2 [("clk", BbIn); ("d", BbIn); ("q", BbOut)]).
+  change (foldl _ (g3, Done) ?l) with (foldl (connF inst ff_def) (g3, Done) l).
+  change (foldl (connF inst ff_def) (g3, Done) [("d", [n]); ("q", [q]); ("clk", [clk_name])])
+    with (foldl (connF inst ff_def) (connF inst ff_def (g3, Done) ("d", [n])) [("q", [q]); ("clk", [clk_name])]).
+  rewrite (connF_in inst ff_def g3 "d" [n]) by (vm_compute; set_solver).
+  destruct (connect_g g3 [n] [pin inst "d"]) as [g4 [|e4]] eqn:E4.
+  2:{ rewrite connF_fail. pose proof (connect_g_fail g3 [n] [pin inst "d"] e4) as Hf. rewrite E4 in Hf. destruct (Hf eq_refl) as [-> _]. done. }
+  change (foldl (connF inst ff_def) (g4, Done) [("q", [q]); ("clk", [clk_name])])
+    with (foldl (connF inst ff_def) (connF inst ff_def (g4, Done) ("q", [q])) [("clk", [clk_name])]).
+  rewrite (connF_out inst ff_def g4 "q" [q]) by (vm_compute; set_solver).
+  destruct (connect_g g4 [pin inst "q"] [q]) as [g5 [|e5]] eqn:E5.
+  2:{ rewrite connF_fail. pose proof (connect_g_fail g4 [pin inst "q"] [q] e5) as Hf. rewrite E5 in Hf. destruct (Hf eq_refl) as [-> _]. done. }
+  change (foldl (connF inst ff_def) (g5, Done) [("clk", [clk_name])]) with (connF inst ff_def (g5, Done) ("clk", [clk_name])).
+  rewrite (connF_in inst ff_def g5 "clk" [clk_name]) by (vm_compute; set_solver).
+  destruct (connect_g g5 [clk_name] [pin inst "clk"]) as [g6 [|e6]] eqn:E6.
+  2:{ pose proof (connect_g_fail g5 [clk_name] [pin inst "clk"] e6) as Hf. rewrite E6 in Hf. destruct (Hf eq_refl) as [-> _]. done. }
+  cbn [fst snd]. intros [= <-].
+  split; [done|]. split; [apply (Hfresh ("clk", BbIn)); set_solver|]. split; [apply (Hfresh ("d", BbIn)); set_solver|].
+  split; [apply (Hfresh ("q", BbOut)); set_solver|]. exists g4, g5, g6. done.
+Qed.
+
+(* ------------------------------------------------------------------ insert_registers: one flop through the API *)
+Lemma pairs_single n l : pairs [n] l = (λ v, (n, v)) <$> l.
+Proof. unfold pairs. simpl. rewrite app_nil_r. induction l as [|v l IH]; simpl; [done|by f_equal]. Qed.
+Lemma disconnect_from_lookup g n l x :
+  disconnect_g g [n] l !! x = if decide (x ∈ l) then upd_fi (λ s, s ∖ {[n]}) <$> g !! x else g !! x.
+Proof.
+  unfold disconnect_g. rewrite pairs_single. rewrite <- del_edges_from_lookup.
+  f_equal. generalize g. induction l as [|v l IH]; intros g0; simpl; [done|apply IH].
 Qed.
